@@ -55,7 +55,7 @@ func TestVerifC15(t *testing.T) {
 	thorough := rp.Thorough()
 	shard, nshards := rp.ShardOf()
 
-	sizes := []int{0, 1, 255, 256, 257, 300}
+	sizes := []int{0, 1, 255, 256, 257, 300, 512}
 	maxDepth := 3
 	fracA := 0.45
 	if thorough {
@@ -110,11 +110,16 @@ func TestVerifC15(t *testing.T) {
 
 	// ---- Part A
 	budget := rp.Deadline().Sub(rp.Start())
-	menu := c15Menu(sizes, thorough)
+	lite := map[int]bool{}
+	if !thorough {
+		lite[512] = true
+	}
+	menu := c15Menu(sizes, lite, thorough)
 	cp := func(o, n int) c15Event { return c15Event{Kind: "cp", Old: o, New: n} }
 	roots := [][]c15Event{
 		nil,                        // fresh witness, nothing pending
 		{cp(0, 257), cp(257, 300)}, // pending 300, the client holds a ticket for the older pending 257
+		{cp(0, 512), {Kind: "ae", Start: 0, End: 512, Cut: "after-pkg-1"}}, // pending 512, first tile uploaded (next entry 256), nothing committed
 	}
 	b := &c15BFS{rp: rp, menu: menu, roots: roots, maxDepth: maxDepth, shard: shard, nshards: nshards,
 		deadline: rp.Start().Add(time.Duration(float64(budget) * fracA)), dir: os.Getenv("VERIF_OUT")}
@@ -123,9 +128,12 @@ func TestVerifC15(t *testing.T) {
 	}
 	completed, okA := b.run()
 	rp.Note("bfs_boundary_sizes", fmt.Sprint(sizes))
+	if len(lite) > 0 {
+		rp.Note("bfs_sizes_with_reduced_ticket_set", "512 (requests touching it use ticket in {none, latest} only)")
+	}
 	rp.Note("bfs_log_entries_used", fmt.Sprint(sizes[len(sizes)-1]))
 	rp.Note("bfs_menu_size", fmt.Sprint(len(menu)))
-	rp.Note("bfs_roots", "fresh witness; pending 300 with a ticket held for the older pending 257")
+	rp.Note("bfs_roots", "fresh witness; pending 300 with a ticket held for the older pending 257; pending 512 with the first tile uploaded (next entry 256) and nothing committed")
 	rp.Note("bfs_target_depth", fmt.Sprint(maxDepth))
 	rp.Note("bfs_depth_completed", fmt.Sprint(completed))
 	rp.Add("states", float64(b.states))
